@@ -223,37 +223,60 @@ func loadDeb2(archive map[string]*ArEntry) (*Deb, error) {
 
 // }}}
 
+// Find the one member of a .deb 2.0 archive by its name prefix {{{
+
+// Return the only member whose name starts with the given prefix (`control.`
+// or `data.`). The members are kept in a map, so if more than one matched,
+// which of them gets used would change from one run to the next; such an
+// archive is refused instead.
+func findDeb2Member(archive map[string]*ArEntry, prefix string) (*ArEntry, error) {
+	var found *ArEntry
+	for _, member := range archive {
+		if !strings.HasPrefix(member.Name, prefix) {
+			continue
+		}
+		if found != nil {
+			return nil, fmt.Errorf("More than one .deb member '%s*'", prefix)
+		}
+		found = member
+	}
+	if found == nil {
+		return nil, fmt.Errorf("Missing or out of order .deb member '%s*'", prefix)
+	}
+	return found, nil
+}
+
+// }}}
+
 // Decode .deb 2.0 control data into the struct {{{
 
 // Load a Debian 2.x series .deb control file and write it out to
 // the deb.Deb.Control member.
 func loadDeb2Control(archive map[string]*ArEntry, deb *Deb) error {
-	for _, member := range archive {
-		if strings.HasPrefix(member.Name, "control.") {
-			archive, closer, err := member.Tarfile()
-			if err != nil {
-				return err
-			}
-			deb.ControlExt = member.Name[8:len(member.Name)]
-			for {
-				member, err := archive.Next()
-				if err != nil {
-					closer.Close()
-					return err
-				}
-				if path.Clean(member.Name) == "control" {
-					err1 := control.Unmarshal(&deb.Control, archive)
-					err2 := closer.Close()
-					if err1 != nil {
-						return err1
-					}
-					return err2
-				}
-			}
+	member, err := findDeb2Member(archive, "control.")
+	if err != nil {
+		return err
+	}
+	tarball, closer, err := member.Tarfile()
+	if err != nil {
+		return err
+	}
+	deb.ControlExt = member.Name[8:len(member.Name)]
+	for {
+		member, err := tarball.Next()
+		if err != nil {
 			closer.Close()
+			return err
+		}
+		if path.Clean(member.Name) == "control" {
+			err1 := control.Unmarshal(&deb.Control, tarball)
+			err2 := closer.Close()
+			if err1 != nil {
+				return err1
+			}
+			return err2
 		}
 	}
-	return fmt.Errorf("Missing or out of order .deb member 'control'")
 }
 
 // }}}
@@ -263,19 +286,18 @@ func loadDeb2Control(archive map[string]*ArEntry, deb *Deb) error {
 // Load a Debian 2.x series .deb data file and write it out to
 // the deb.Deb.Data member.
 func loadDeb2Data(archive map[string]*ArEntry, deb *Deb) error {
-	for _, member := range archive {
-		if strings.HasPrefix(member.Name, "data.") {
-			archive, closer, err := member.Tarfile()
-			if err != nil {
-				return err
-			}
-			deb.DataExt = member.Name[5:len(member.Name)]
-			deb.Data = archive
-			deb.Closer = closer
-			return nil
-		}
+	member, err := findDeb2Member(archive, "data.")
+	if err != nil {
+		return err
 	}
-	return fmt.Errorf("Missing or out of order .deb member 'data'")
+	tarball, closer, err := member.Tarfile()
+	if err != nil {
+		return err
+	}
+	deb.DataExt = member.Name[5:len(member.Name)]
+	deb.Data = tarball
+	deb.Closer = closer
+	return nil
 }
 
 // }}}
